@@ -5,7 +5,6 @@ from __future__ import annotations
 import os
 from pathlib import Path
 from typing import cast
-from uuid import uuid4
 
 from docutils import nodes
 from markdown_it.tree import SyntaxTreeNode
@@ -202,7 +201,9 @@ class SphinxRenderer(DocutilsRenderer):
         self.current_node.append(node)
 
     def _random_label(self) -> str:
-        return str(uuid4())
+        # a label that is unique within the project, and reproducible between builds
+        serial = self.sphinx_env.new_serialno("myst-amsmath")
+        return f"{self.sphinx_env.docname}-amsmath-{serial}"
 
     def render_amsmath(self, token: SyntaxTreeNode) -> None:
         """Renderer for the amsmath extension."""
